@@ -9,7 +9,7 @@ jobs=/tmp/seed_regress_jobs.txt; : > $jobs
 for d in seeded/*/; do
   k=$(basename $d); [ -f $d/meta.json ] || continue
   prop=$(python3 -c "import json,re;print(re.match(r'C\d\d', json.load(open('$d/meta.json'))['breaks_property']).group(0))")
-  echo "$k $prop ${extra[$k]:-}" >> $jobs
+  echo "$k $prop ${extra[$k]:-}" | sed "s/ *$//" >> $jobs
 done
 run1() { k=$1; shift; /verif/tools_seedrun.sh /verif/seeded/$k "$@"; }
 export -f run1
